@@ -650,7 +650,7 @@ where
 		height,
 		parent_key_id,
 	)?;
-	clean_old_unconfirmed(wallet, keychain_mask, height)?;
+	clean_old_unconfirmed(wallet, keychain_mask, height, parent_key_id)?;
 	Ok(())
 }
 
@@ -701,10 +701,15 @@ where
 	Ok(reverted)
 }
 
+/// Removes coinbase candidates of the account that has just been refreshed that are
+/// still unconfirmed long after they were built. Only that account: an unconfirmed
+/// candidate of another account may simply not have been refreshed yet (its block may
+/// well be on chain), and removing it would lose the output.
 fn clean_old_unconfirmed<'a, T: ?Sized, C, K>(
 	wallet: &mut T,
 	keychain_mask: Option<&SecretKey>,
 	height: u64,
+	parent_key_id: &Identifier,
 ) -> Result<(), Error>
 where
 	T: WalletBackend<'a, C, K>,
@@ -716,7 +721,8 @@ where
 	}
 	let mut ids_to_del = vec![];
 	for out in wallet.iter() {
-		if out.status == OutputStatus::Unconfirmed
+		if out.root_key_id == *parent_key_id
+			&& out.status == OutputStatus::Unconfirmed
 			&& out.height > 0
 			&& out.height < height - 50
 			&& out.is_coinbase
